@@ -599,7 +599,8 @@ func TestVerif_C09(t *testing.T) {
 	r.Finish(5000)
 }
 
-// hostWithinDNSLimits: the host of a serialized origin is at most 253 bytes long with labels of 1..63 bytes
+// hostWithinDNSLimits: the value is an origin a browser can send: the host is an IPv6 literal of hex digits and colons,
+// a canonical dotted quad, or a lower-case letter-digit-hyphen domain of at most 253 bytes with labels of 1..63 bytes
 // (matchRaw judges the shape of an Origin value, not these limits; beyond them a value is not an origin at all).
 func hostWithinDNSLimits(raw string) bool {
 	i := strings.Index(raw, "://")
@@ -607,13 +608,32 @@ func hostWithinDNSLimits(raw string) bool {
 		return false
 	}
 	host := raw[i+3:]
-	if strings.HasPrefix(host, "[") {
+	if strings.HasPrefix(host, "[") { // an IPv6 literal: hex digits and colons only (a bracketed domain is not an origin any browser sends)
+		end := strings.IndexByte(host, ']')
+		if end < 3 {
+			return false
+		}
+		for k := 1; k < end; k++ {
+			c := host[k]
+			if !(c >= '0' && c <= '9' || c >= 'a' && c <= 'f' || c == ':') {
+				return false
+			}
+		}
 		return true
 	}
 	if j := strings.IndexByte(host, ':'); j >= 0 {
 		host = host[:j]
 	}
 	if len(host) == 0 || len(host) > 253 {
+		return false
+	}
+	for k := 0; k < len(host); k++ {
+		c := host[k]
+		if !(c >= 'a' && c <= 'z' || c >= '0' && c <= '9' || c == '-' || c == '.') {
+			return false
+		}
+	}
+	if !wellFormedNumericHost(host) {
 		return false
 	}
 	for _, lab := range strings.Split(host, ".") {
